@@ -233,7 +233,7 @@ var inlineFrags = []string{
 	"[Foo Bar]", "![img](/i.png)", "![alt][foo]", "<http://example.com/a?b=c>", "<me@example.com>",
 	"<span class=\"x\">", "</span>", "<!-- c -->", "<?php ?>", "<![CDATA[x]]>", "<!DOCTYPE x>", "&amp;", "&#35;", "&#x22;", "&nosuch;",
 	"\\*not\\*", "\\", "a  ", "a\\", "[](", "[a](b", "[a]: not def", "*a **b* c**", "__a__b__", "a * b * c",
-	"<a href=\"x\"", "<script>x</script>", "[x](/u\\)y)", "<b>", "trailing\\", "x`y``z`", "[[nested]](/u)", "![[a]](/u)",
+	"<a href=\"x\"", "<script>x</script>", "[x](/u\\)y)", "[r](/100%_done.txt)", "<http://x/?q=%GG>", "[p](/%5B%zz%2G%)", "<b>", "trailing\\", "x`y``z`", "[[nested]](/u)", "![[a]](/u)",
 	"&copy;", "\t tab", "<DIV>", "<Script>x</Script>", "<TITLE>t</TITLE>", "<TextArea>", "</XMP>", "<IFRAME src=x>", "<Style>", "<NoEmbed>", "<A HREF=\"x\">", "<PlainText>", "**", "_", "[", "]", "![", "<", ">", "1. x", "- y", "# z", "> q", "```", "~~~", "---", "===",
 }
 
@@ -479,7 +479,7 @@ var tokenClasses = [][]string{
 	{"&#32;", "&#x20;", "&Tab;", "&NewLine;", "&nbsp;", "&#0;", "&#xD800;", "&#x110000;", "&#9;", "&#10;", "&#13;", "&amp;", "&lt;", "&quot;", "&;", "&#;", "&#x;", "&copy", "&#1234567890;", "&NoSuchEntity;", "&#xFFFD;", "&AElig", "&ngE;", "&#x0;", "&zwnj;", "&ensp;"},
 	{" ", "  ", "\t", "\\", "\\\\", "`", "``", "*", "**", "_", "__", "~", "#", "=", "-", "+", ".", ")", "(", "[", "]", "!", "<", ">", ":", "'", "\"", "|", "\\`", "\\[", "\\<", "\\&"},
 	{"<a>", "</a>", "<B>", "<SPAN x=y>", "<br/>", "<!--", "-->", "<!-->", "<!--->", "<?", "?>", "<![CDATA[", "]]>", "<!X", "<!x>", "<a href='", "<a href=\"x", "<https://x.y>", "<x@y.z>", "<\u03a3>", "</", "<", "<a/", "<a b=c d>", "<LongTagName>", "<I>", "</LongTagName >", "<a\tb>", "<sCrIpT>", "<pre>", "</pre>"},
-	{"[a]", "[a]:", "[A]", "(/u)", "(<u v>)", "(/u \"t\")", "(/u 't')", "(/u (t))", "[]", "![", "](", "][", "[^a]", "[a b]", "[a\\]b]", "(", ")", "(<>)", "(/u\\))", "[a]: /u", "[a]: <>", "[\u1e9e]", "[SS]", "[ a  b ]", "(/%zz?a=b&c=\u00e9)", "(/u 'a\\'b')", "(\\)"},
+	{"[a]", "[a]:", "[A]", "(/u)", "(<u v>)", "(/u \"t\")", "(/u 't')", "(/u (t))", "[]", "![", "](", "][", "[^a]", "[a b]", "[a\\]b]", "(", ")", "(<>)", "(/u\\))", "[a]: /u", "[a]: <>", "[\u1e9e]", "[SS]", "[ a  b ]", "(/%zz?a=b&c=\u00e9)", "(/100%_done)", "(/x%2G)", "(/%GG)", "(/%5B%5d%)", "<http://x/?q=%GZ>", "[p]: /x%_y", "(/u 'a\\'b')", "(\\)"},
 	{"a", "word", "\u00c9", "\u00df", "\u00a0", "\u2003", "0", "12", "x y", "\ufeff", "e\u0301", "\U0001f600", "\x7f", "Z"},
 }
 
@@ -526,7 +526,7 @@ func classLines(r *Rng) []byte {
 // pool practically never produces.  One document in five is instead built
 // around LONG RUNS of one token whose length sits at a round number.
 
-var soupPool = []string{"*", "_", "`", "[", "]", "(", ")", "!", "<", ">", "\\", "\n", "\n", "\n\n", " ", " ", "  ", "a", "b", "&", "#", ";", ":", "\"", "'", "-", "+", "1", ".", "=", "~", "\t", "|", "/", "x@y.z", "http://a", "&amp;", "&#", "]:", "](", "][", " \n", "\r\n", "\x00", "\u00e9", "**", "__", "``", "> ", "- ", "<a", "/>", "-->", "<!--", "]]>", "?>"}
+var soupPool = []string{"%", "%G", "%_", "%2G", "%5b", "%Zz", "(/", "<http://x/", "*", "_", "`", "[", "]", "(", ")", "!", "<", ">", "\\", "\n", "\n", "\n\n", " ", " ", "  ", "a", "b", "&", "#", ";", ":", "\"", "'", "-", "+", "1", ".", "=", "~", "\t", "|", "/", "x@y.z", "http://a", "&amp;", "&#", "]:", "](", "][", " \n", "\r\n", "\x00", "\u00e9", "**", "__", "``", "> ", "- ", "<a", "/>", "-->", "<!--", "]]>", "?>"}
 
 var runLengths = []int{15, 16, 17, 31, 32, 33, 63, 64, 65, 79, 80, 81, 99, 100, 101, 127, 128, 129, 255, 256, 257, 999, 1000, 1001}
 
